@@ -455,6 +455,11 @@ func vRunC09(c *vCase) {
 	// with a source's primary, and two sources of one receiver fire on the same frame)
 	owner := map[int]map[int]bool{} // stream-relative sample -> channels with a pulse there
 	at := npre + r.Intn(nsamp)
+	earliest := c.Idx%4 == 1 // the first pulse sits on the earliest frame for which a full record exists
+	if earliest {
+		at = npre
+	}
+	firstOwner := -1
 	for at+nsamp < total {
 		ch := r.Intn(nchan)
 		for !hasTrig[ch] {
@@ -469,6 +474,9 @@ func vRunC09(c *vCase) {
 					break
 				}
 			}
+		}
+		if firstOwner < 0 {
+			firstOwner = ch
 		}
 		owner[at] = map[int]bool{}
 		for _, ch := range chs {
@@ -529,6 +537,14 @@ func vRunC09(c *vCase) {
 		nedits := r.Intn(4)
 		if step == 0 {
 			nedits = 1 + r.Intn(4)
+		}
+		if step == 0 && earliest && firstOwner >= 0 && nchan > 1 {
+			// the channel of that first pulse feeds another channel from the start
+			rx := (firstOwner + 1 + r.Intn(nchan-1)) % nchan
+			ds.ChangeGroupTrigger(true, &GroupTriggerState{Connections: map[int][]int{firstOwner: {rx}}})
+			model[vPair{firstOwner, rx}] = true
+			hist = append(hist, fmt.Sprintf("add %d>%d", firstOwner, rx))
+			c.Cov("first_pulse_on_earliest_frame_with_receiver", 1)
 		}
 		for e := 0; e < nedits; e++ {
 			k := r.Intn(12)
